@@ -15,7 +15,7 @@ pub static PROP: Prop = Prop { id: "C11", level, run, replay, gate, both_profile
 fn level(t: Tier) -> Level {
     Level {
         category: "model_checking",
-        rule: if t.thorough() { "model ROW: 2 aircraft (56 actions) to depth 4 and 3 aircraft (83 actions) to depth 3, x {default,-U,-R,-U -R}" } else { "model ROW: 2 aircraft, 56 actions (27 frames of every supported format per aircraft + tick 4 s / 11 s), all sequences to depth 3, x {default,-U,-R,-U -R}" },
+        rule: if t.thorough() { "model ROW: 2 aircraft (58 actions) to depth 4 and 3 aircraft (86 actions) to depth 3, x {default,-U,-R,-U -R}" } else { "model ROW: 2 aircraft, 58 actions (28 frames of every supported format per aircraft + tick 4 s / 11 s), all sequences to depth 3, x {default,-U,-R,-U -R}" },
         assumptions: vec![
             "state = canonical snapshot of the whole table (every public field of every row, ages in ms under the frozen clock) + reference CPR slots as history variable; transition = one run of the real reader thread on the restored table; de-duplicated on (state, history variable)".into(),
             "oracle = one-step refinement from the implementation's own pre-state: carried parameters take the reference value (or {blank, previous} when the frame has no valid value), parameters the format does not carry stay bit-identical, all other rows stay bit-identical; idempotence probe on every transition that updates an existing row".into(),
